@@ -238,6 +238,40 @@ CHECKS["C04"] = dict(
     technique="exhaustive single-bit + sampled multi-bit fault enumeration on real files, every outcome judged by TLC against a TLA+ contract; CRC Hamming-distance by TLC on syndromes",
 )
 
+_TWR = ("The real jls_twr_* code (library objects compiled from the working tree with -DJLS_VERIF and a 256-byte queue) runs under a cooperative scheduler "
+        "(harness/sched_shim.c, link-time interposition of every pthread / nanosleep / clock_gettime call): threads interleave exactly at their "
+        "synchronisation operations, time is virtual, the schedule is a script or a seeded priority policy. Twr.tla models the same system at the same "
+        "grain (one step = one pthread operation of one thread plus its local code; queue decisions of msg_ring_buffer.c; msg_send / flush / close retry "
+        "loops; clock ticks that may overshoot by 6 s or 21 s). ")
+CHECKS["C06"] = dict(
+    category="model_checking",
+    text=_TWR + "TLC explores the complete state space of Twr.tla for small programs (1-3 producers, messages that fill and wrap the queue, drop on/off) "
+         "with the invariants 'applied = prefix of accepted in enqueue order' and 'return code agrees with what was queued'. Every edge of the complete "
+         "state graph of small programs (thorough: more programs plus TLC simulation behaviours) is turned into a schedule and executed on the real code; "
+         "these runs plus random programs (fsr of all widths, annotation, UTC, user data, omit, flush; sizes forcing wrap-around and overflow) under seeded "
+         "PCT-style schedules are judged event by event by TwrContractTrace.tla: every accepted message reaches the synchronous writer exactly once, in "
+         "enqueue order, with the producer's bytes, under the process lock; queue access only under the message lock; error return <=> nothing queued; the "
+         "file equals the one the synchronous writer produces from the accepted calls. TwrTrace.tla checks that each recorded run is a behaviour of Twr.tla "
+         "with identical outputs (deviation is reported as MODEL-DRIFT).",
+    design_ref="DESIGN.md section 6 C06, section 12",
+    note="Trusted: TLC; the scheduler shim and the observation wraps in harness/twr_drv.c. Grain: interleavings at synchronisation operations only (sequential "
+         "consistency between them); the unlocked reads of flush_processed_id / quit are not examined at instruction level. No run on free-running threads.",
+    technique="TLA+ model checking (TLC) of the thread system + replay of every state-graph edge into the real code under a deterministic scheduler + TLC trace validation (contract and model conformance)",
+)
+CHECKS["C07"] = dict(
+    category="model_checking",
+    text=_TWR + "TLC explores the complete state space of Twr.tla for small programs with flushes and the close behind a full queue: invariants 'a flush that "
+         "returns success has every earlier accepted message applied and synced' and 'close applies everything, joins the writer thread, closes the file', TLC's "
+         "deadlock check, and termination under fairness (strong fairness per thread, weak fairness of the clock), so every retry loop ends. Every edge of the "
+         "state graph of small programs is executed on the real code under virtual time (all timeout paths reachable); those runs plus random programs with "
+         "flushes behind big messages under seeded schedules are judged by TwrContractTrace.tla (flush/close clauses; Deadlock = nothing enabled, no timer, "
+         "threads unfinished; Livelock = step budget exhausted under a weakly fair schedule) and compared with Twr.tla by TwrTrace.tla.",
+    design_ref="DESIGN.md section 6 C07, section 12",
+    note="Trusted: as C06. 'Synced' is observed as the call of jls_wr_flush by the writer thread, not as fsync reaching the device. Fairness: the shim runs an "
+         "enabled thread after at most 20000 decisions; the model assumes strong fairness for lock acquisition.",
+    technique="TLA+ model checking (TLC) incl. deadlock and liveness under fairness + state-graph replay into the real code under a deterministic scheduler with virtual time + TLC trace validation",
+)
+
 NOT_YET = {}
 
 
@@ -268,7 +302,7 @@ def main():
             "guard": "JLS_VERIF",
             "enable": "harness/build.sh verif|asan compiles /repo/src with -DJLS_VERIF=1 (plus -DJLS_VERIF_MRB_BUFFER_SIZE=<n> for the threaded-writer checks)",
             "baseline_off_cmd": "tools/baseline.sh",
-            "source_commits": [],
+            "source_commits": ["8856985"],
             "add_only": True,
         },
         "engines": [
